@@ -343,6 +343,64 @@ theorem getEdgesRef_edges (ir : IR) (scope : Owner) (e : EdgeAst) (idx : Option 
         have e2 := EnsureField_edges' h2
         simp only []; rw [e2, e1]
 
+/-! the lookups never report errors themselves -/
+@[simp] theorem updField_errs (ir : IR) (i : Nat) (g : FNode → FNode) : (ir.updField i g).errs = ir.errs := rfl
+
+theorem ensureField_errs (ir : IR) (m : Owner) (path : List Name) (ref : Option (Option Nat × Owner)) (create : Bool) :
+    (ir.ensureField m path ref create).1.errs = ir.errs := by
+  induction path generalizing ir m with
+  | nil => simp [IR.ensureField]
+  | cons head rest ih =>
+    unfold IR.ensureField
+    repeat' split
+    all_goals first | rfl | simp [ih]
+
+theorem EnsureField_errs (ir : IR) (m : Owner) (path : List Name) (ref : Option (Option Nat × Owner)) (create : Bool) :
+    (ir.EnsureField m path ref create).1.errs = ir.errs := by
+  induction path generalizing ir m with
+  | nil => simp [IR.EnsureField]
+  | cons head rest ih =>
+    unfold IR.EnsureField
+    repeat' split
+    all_goals first | rfl | simp [ih, ensureField_errs]
+
+theorem EnsureField_errs' {ir ir' : IR} {m : Owner} {path : List Name} {ref : Option (Option Nat × Owner)} {create : Bool}
+    {r : Except Err (Option Nat)} (h : ir.EnsureField m path ref create = (ir', r)) : ir'.errs = ir.errs := by
+  have := EnsureField_errs ir m path ref create; rw [h] at this; exact this
+
+theorem descendLookup_errs (ir : IR) (m : Owner) (common : List Name) : (ir.descendLookup m common).1.errs = ir.errs := by
+  unfold IR.descendLookup
+  split
+  · rfl
+  · have h := EnsureField_errs ir m common none false
+    split <;> simp_all
+
+theorem descendLookup_errs' {ir ir' : IR} {m : Owner} {common : List Name} {r : Option Owner}
+    (h : ir.descendLookup m common = (ir', r)) : ir'.errs = ir.errs := by
+  have := descendLookup_errs ir m common; rw [h] at this; exact this
+
+theorem getEdgesRef_errs (ir : IR) (scope : Owner) (e : EdgeAst) (idx : Option Nat) : (ir.getEdgesRef scope e idx).1.errs = ir.errs := by
+  unfold IR.getEdgesRef
+  split
+  · rfl
+  · split
+    · rename_i h; simpa using descendLookup_errs' h
+    · rename_i h1
+      have e1 := descendLookup_errs' h1
+      split
+      · rename_i h2
+        have e2 := EnsureField_errs' h2
+        split
+        · rename_i h3
+          have e3 := EnsureField_errs' h3
+          simp only []; rw [e3, e2, e1]
+        · rename_i h3
+          have e3 := EnsureField_errs' h3
+          simp only []; rw [e3, e2, e1]
+      · rename_i h2
+        have e2 := EnsureField_errs' h2
+        simp only []; rw [e2, e1]
+
 theorem updEdge_good {rule : IdxRule} {k : Bool} (ir : IR) (id : Nat) (g : ENode → ENode) (hg : ∀ e, (g e).core = e.core) :
     Good rule k ir.edges (ir.updEdge id g).edges := by
   apply Good.of_step
